@@ -1,7 +1,8 @@
 ''' Whole bundle encodings and helper functions.
 '''
+import io
 import cbor2
-from typing import Set
+from typing import List, Optional, Set
 from scapy_cbor.fields import (PacketField, PacketListField)
 from scapy_cbor.packets import (CborArray)
 from .blocks import (PrimaryBlock, CanonicalBlock)
@@ -23,6 +24,47 @@ class Bundle(CborArray):
         PacketField('primary', default=None, cls=PrimaryBlock),
         PacketListField('blocks', default=[], cls=CanonicalBlock),
     )
+
+    @staticmethod
+    def _split_wire_items(data: bytes) -> Optional[List[bytes]]:
+        ''' Get the encoded form of each block of a received bundle.
+
+        :param data: The encoded bundle.
+        :return: The octets of each item of the outer (indefinite length)
+            array, or None if the outer array has a different form.
+        :raise ValueError: If the array does not end where the data ends.
+        '''
+        if not data or data[0] != 0x9f:
+            return None
+        buf = io.BytesIO(data)
+        buf.seek(1)
+        dec = cbor2.CBORDecoder(buf)
+        items = []
+        while True:
+            pos = buf.tell()
+            if pos >= len(data):
+                raise ValueError('Bundle array is not terminated')
+            if data[pos] == 0xff:
+                break
+            dec.decode()
+            items.append(data[pos:buf.tell()])
+        if pos + 1 != len(data):
+            raise ValueError('Bundle is followed by {} extra octets'.format(len(data) - pos - 1))
+        return items
+
+    def dissect(self, s):
+        ''' Decode the whole bundle from a bytestring, keeping the encoded
+        form of each block so that its CRC is checked over the octets
+        which were actually received.
+        '''
+        wire_items = None
+        if isinstance(s, bytes):
+            wire_items = self._split_wire_items(s)
+        CborArray.dissect(self, s)
+        if wire_items and len(wire_items) == 1 + len(self.blocks):
+            self.primary.wire_data = wire_items[0]
+            for (blk, item) in zip(self.blocks, wire_items[1:]):
+                blk.wire_data = item
 
     def _update_from_admin(self):
         for blk in self.blocks:
